@@ -41,6 +41,17 @@ structure NodeGood (kf : KF) (cut : Option Nat) (p : Produced) : Prop where
   lower : MERGE ≤ p.node.body ∨ cut = none
   upper : kf.canon = true → p.node.body ≤ BODY
   pc : 1 ≤ p.node.pc ∧ p.node.pc ≤ p.node.items.length
+  sorted : SortedK p.node.keys
+  below : Below p.node.keys
+  pl_le : p.node.pl ≤ 256
+  share : ∀ f, p.node.items.head? = some f → ∀ it ∈ p.node.items.take p.node.pc, top it.key p.node.pl = top f.key p.node.pl
+  canon : kf.canon = true → ∀ i (h : i < p.node.items.length),
+    p.node.items[i].slen = if i < p.node.pc then kf.sl p.node.items[i].key - p.node.pl else kf.sl p.node.items[i].key
+
+/-- with the repair of F20 a produced node is a well-formed node again: it can be the base of a later stage -/
+theorem NodeGood.nodeOK {kf : KF} {cut : Option Nat} {p : Produced} (h : NodeGood kf cut p) (hc : kf.canon = true) :
+    NodeOK kf p.node :=
+  ⟨h.ne, h.sorted, h.below, h.pc.1, h.pc.2, h.pl_le, h.share, h.canon hc⟩
 
 /-- the entries of a list of produced nodes -/
 def flatP (ls : List Produced) : List (Entry Nat) := ls.flatMap fun p => ents p.node.items
@@ -106,7 +117,8 @@ theorem produce_spec {kf : KF} (hkf : KFOK kf) (b? : Option Base) (hbase : BaseO
   have hitems : node.items ≠ [] := by
     intro h; rw [h] at n4; exact hne n4.symm
   have hpcb := htr.gauge.pcItems_bounds (by intro h; apply hne; simpa [ekeys] using h)
-  refine ⟨node, sep, n1, s1, n4, ⟨hitems, ?_, rfl, ?_, fun hc => by rw [q2 hc]; exact hle, ?_⟩⟩
+  have hlenK : node.items.length = (ekeys (den b? ops)).length := by rw [← hkeys]; simp
+  refine ⟨node, sep, n1, s1, n4, ⟨hitems, ?_, rfl, ?_, fun hc => by rw [q2 hc]; exact hle, ?_, ?_, ?_, ?_, ?_, ?_⟩⟩
   · rw [← s2, ← n4]
     cases hx : node.items with
     | nil => exact absurd hx hitems
@@ -115,8 +127,26 @@ theorem produce_spec {kf : KF} (hkf : KFOK kf) (b? : Option Base) (hbase : BaseO
     · exact Or.inl (by simp only; omega)
     · exact Or.inr h
   · simp only [n3]
-    have : node.items.length = (ekeys (den b? ops)).length := by rw [← hkeys]; simp
-    rw [this]; exact hpcb
+    rw [hlenK]; exact hpcb
+  · show SortedK (node.items.map (·.key)); rw [hkeys]; exact hsL
+  · show Below (node.items.map (·.key)); rw [hkeys]; exact hbL
+  · simp only [n2]; exact htr.gauge.pl_le
+  · intro f hf it hit
+    simp only [n2, n3] at hit ⊢
+    have hhead : (ekeys (den b? ops)).head? = some f.key := by
+      rw [← hkeys]
+      cases hx : node.items with
+      | nil => rw [hx] at hf; cases hf
+      | cons a r => rw [hx] at hf; simp at hf; subst hf; rfl
+    apply htr.gauge.share f.key hhead
+    rw [← hkeys, ← List.map_take]
+    exact List.mem_map.2 ⟨it, hit, rfl⟩
+  · intro hc i hi
+    have hgl := goodFrom_getElem kf g.pl g.pcItems k0 node.items 0 n5 i hi
+    have := hgl.2.2 hc
+    simp only [Nat.zero_add, canonLen] at this
+    simp only [n2, n3]
+    exact this
 
 /-! ## `try_split` -/
 
